@@ -19,6 +19,9 @@ pub open spec fn is_pow2(n: nat) -> bool decreases n { n == 1 || (n > 1 && n % 2
 #[verifier::external_body]
 pub fn usize_is_power_of_two(n: usize) -> (r: bool) ensures r == is_pow2(n as nat) { n.is_power_of_two() }
 #[verifier::external_body]
+/// usize::next_power_of_two (panics / wraps above 2^63: excluded by the precondition of its caller)
+#[verifier::external_body]
+pub fn usize_next_power_of_two(n: usize) -> (r: usize) requires n <= 0x8000_0000_0000_0000 ensures is_pow2(r as nat), r >= n, r >= 1 { unimplemented!() }
 pub fn usize_max(a: usize, b: usize) -> (r: usize) ensures r == (if a >= b { a } else { b }) { a.max(b) }
 @@TYPES@@
 impl TablePacking {
@@ -90,6 +93,17 @@ def build():
     h.requires('documented_panic', 'k >= 2')
     h.requires('wf', 'self.wf()')
     h.ensures('well_formed', 'ret.wf() && ret.horner_packed_steps == k')
+    # with_min_trace_height: whatever height the caller asks for, the packing handed out is one `validate` accepts (C10: a proof made with it verifies; C16: what the prover records is well-formed)
+    mh = u.extract(P, r'impl TablePacking', 'with_min_trace_height', 'TablePacking::with_min_trace_height')
+    mh.sig_rewrite('R2', 'mut self', 'self')
+    mh.sig_rewrite('R12', '-> Self', '-> TablePacking')
+    mh.rewrite_re('R2', r'\bself\b', 'self_', min_count=1)
+    mh.at_start('let mut self_ = self;')
+    mh.rewrite_re('R11', r'(\w+)\.next_power_of_two\(\)', r'usize_next_power_of_two(\1)', min_count=0)
+    mh.rewrite_re('R11', r'(usize_next_power_of_two\(\w+\)|\b\w+)\.max\(1\)', r'usize_max(\1, 1)', min_count=0)
+    mh.requires('wf', 'self.wf()')
+    mh.requires('the_rounded_height_fits', 'min_trace_height <= 0x4000_0000_0000_0000')
+    mh.ensures('the_packing_handed_out_is_one_validate_accepts', 'ret.wf()')
     l = u.extract(P, r'impl TablePacking', 'with_public_alu_lanes', 'TablePacking::with_public_alu_lanes')
     l.sig_rewrite('R2', 'mut self', 'self')
     l.sig_rewrite('R12', '-> Self', '-> TablePacking')
@@ -107,7 +121,7 @@ def build():
     v.ensures('H_the_declared_lane_counts_and_packing_are_small_enough_for_the_width_arithmetic', 'ret is Ok ==> self.public_lanes < 0x1_0000_0000 && self.alu_lanes < 0x1_0000_0000 && self.horner_packed_steps < 0x1_0000_0000')
     v.loop('for q_ in 0..self.npo_lanes.len()', invariants=[('checked', 'forall|i: int| 0 <= i < q_ ==> (#[trigger] self.npo_lanes@[i]).1 > 0')])
     u.text('verus! {\nimpl TablePacking {')
-    for f in (n, h, l, v):
+    for f in (n, h, mh, l, v):
         u.emit(f)
     u.text('}\n}')
 
@@ -136,7 +150,7 @@ def build():
     # ------------------------------------------------------------------ NonPrimitiveTableEntry::validate, BatchStarkProof::validate
     u.text('''verus! {
 /// the fields of NonPrimitiveTableEntry / BatchStarkProof that `validate` reads
-pub struct NonPrimitiveTableEntry { pub op_type: NpoTypeId, pub lanes: usize }
+pub struct NonPrimitiveTableEntry { pub op_type: NpoTypeId, pub lanes: usize, pub rows: usize }
 pub struct BatchStarkProof { pub ext_degree: usize, pub rows: RowCounts, pub table_packing: TablePacking, pub non_primitives: Vec<NonPrimitiveTableEntry> }
 pub open spec fn supported_ext_degree(d: usize) -> bool { d == 1 || d == 2 || d == 4 || d == 5 || d == 6 || d == 8 }
 impl RowCounts { #[verifier::external_body] pub fn validate_(&self) -> (r: Result<(), ProofMetadataError>) ensures r is Ok <==> self.wf() { unimplemented!() } }
